@@ -92,6 +92,15 @@ type Features struct {
 	Paren    bool     `json:"paren,omitempty"`     // parenthesise options
 	Extra    string   `json:"extra,omitempty"`     // free-form marker for special templates
 	Surround bool     `json:"surround,omitempty"`  // add unrelated declarations and statements around the directive
+	// IdentArg: the IdentPos-th eligible directive argument (Params value,
+	// Concurrency/ContinueOnError value, collection, emitter; -1 = the last
+	// one) is passed as a bare identifier of this name, declared in the
+	// enclosing function.
+	IdentArg string `json:"ident_arg,omitempty"`
+	IdentPos int    `json:"ident_pos,omitempty"`
+	// Pad: number of comment lines inserted before the enclosing function
+	// (moves the directive to chosen line numbers).
+	Pad int `json:"pad,omitempty"`
 }
 
 // Program is one directive with its rendering features.
